@@ -83,6 +83,81 @@ func (c *scriptedConn) PublishRequest(subject, reply string, data []byte) error 
 	return nil
 }
 
+// echoConn answers every request with a result that carries the request's payload, on the reply subject it was
+// published with, and counts how often each inbox subject was subscribed to.
+type echoConn struct {
+	mu    sync.Mutex
+	subs  map[string]chan *nats.Msg
+	count map[string]int
+}
+
+func (c *echoConn) Publish(string, []byte) error { return nil }
+func (c *echoConn) Close()                       {}
+func (c *echoConn) ChanSubscribe(subject string, ch chan *nats.Msg) (*nats.Subscription, error) {
+	c.mu.Lock()
+	c.subs[subject] = ch
+	c.count[subject]++
+	c.mu.Unlock()
+	return &nats.Subscription{Subject: subject}, nil
+}
+func (c *echoConn) ChanQueueSubscribe(subject, q string, ch chan *nats.Msg) (*nats.Subscription, error) {
+	return c.ChanSubscribe(subject, ch)
+}
+func (c *echoConn) PublishRequest(subject, reply string, data []byte) error {
+	c.mu.Lock()
+	ch := c.subs[reply]
+	c.mu.Unlock()
+	msg := &nats.Msg{Subject: reply, Data: []byte(`{"result":` + string(data) + `}`)}
+	select {
+	case ch <- msg:
+	default:
+		go func() {
+			select {
+			case ch <- msg:
+			case <-time.After(200 * time.Millisecond):
+			}
+		}()
+	}
+	return nil
+}
+
+// runConcurrentEcho: many goroutines call SendRequest on one connection at the same time. Every call has an inbox
+// of its own and returns the response to its own request.
+func runConcurrentEcho(procs, each int) rec {
+	conn := &echoConn{subs: map[string]chan *nats.Msg{}, count: map[string]int{}}
+	var wrong, timeouts int64
+	var wg sync.WaitGroup
+	for p := 0; p < procs; p++ {
+		wg.Add(1)
+		go func(p int) {
+			defer wg.Done()
+			for k := 0; k < each; k++ {
+				want := p*1000000 + k
+				resp := resprot.SendRequest(conn, "call.test.echo.m", want, 300*time.Millisecond)
+				var got int
+				switch {
+				case resp.HasError() && resp.Error.Code == res.CodeTimeout:
+					atomic.AddInt64(&timeouts, 1)
+				case resp.HasError() || resp.ParseResult(&got) != nil || got != want:
+					atomic.AddInt64(&wrong, 1)
+				}
+			}
+		}(p)
+	}
+	wg.Wait()
+	shared := 0
+	conn.mu.Lock()
+	for _, n := range conn.count {
+		if n > 1 {
+			shared++
+		}
+	}
+	conn.mu.Unlock()
+	return rec{"judge": "echo", "fail": "", "t0": 0, "script": [][]interface{}{}, "res": "result", "ext": []int{}, "released": true, "fast": true, "elapsed_ticks": 0.0,
+		"wrong": wrong, "timeouts": timeouts, "shared": shared,
+		"dbg": fmt.Sprintf("%d goroutines x %d concurrent requests on one connection: %d answered with another request's response, %d timed out, %d inbox subjects used more than once", procs, each, wrong, timeouts, shared)}
+}
+
 // timedConn delivers a fixed schedule of messages to the inbox of the one request made on it.
 type timedConn struct {
 	scriptedConn
@@ -443,6 +518,9 @@ func Run(c *core.Ctx) {
 	}
 	for rep := 0; rep < c.Pick(9, 60); rep++ {
 		good = append(good, runSlowCallback(rep))
+	}
+	for rep := 0; rep < c.Pick(2, 8); rep++ {
+		good = append(good, runConcurrentEcho(16, c.Pick(6000, 20000)))
 	}
 	untimely := 0
 	for _, r := range recs {
